@@ -287,12 +287,69 @@ Fixpoint best_cand (best : cand) (l : list cand) : cand :=
 
 (* ------------------------------------------------------------------ backends and filters *)
 
+(* ------------------------------------------------------------------ backend TLS policies *)
+
+Definition btp_older (a b : btp) : bool := older (bt_ts a) (bt_ns a) (bt_name a) (bt_ts b) (bt_ns b) (bt_name b).
+
+Fixpoint min_btp (best : btp) (l : list btp) : btp :=
+  match l with
+  | [] => best
+  | x :: l' => if btp_older x best then min_btp x l' else min_btp best l'
+  end.
+
+(* the policy in effect for a Service: the oldest (then namespace/name) of those targeting it *)
+Definition btp_for (cs : cluster) (svc_ns svc_name : string) : option btp :=
+  match filter (fun b => seqb (bt_ns b) svc_ns && mem_str svc_name (bt_targets b)) (c_btps cs) with
+  | [] => None
+  | b :: l => Some (min_btp b l)
+  end.
+
+Definition btp_valid (cs : cluster) (b : btp) : bool :=
+  match bt_ca b, bt_wellknown b with
+  | Some cm, false => existsb (fun c => seqb (cm_ns c) (bt_ns b) && seqb (cm_name c) cm && cm_ok c) (c_cms cs)
+  | None, true => true
+  | _, _ => false
+  end.
+
+Definition system_ca := "/etc/ssl/cert.pem".
+
+(* what TLS verification a backend asks for: None = plain; Some (server name, CA file) *)
+Definition btp_verify (b : btp) : string * string :=
+  (bt_host b, match bt_ca b with
+              | Some cm => "/etc/nginx/secrets/cert_bundle_" ++ bt_ns b ++ "_" ++ cm ++ ".crt"
+              | None => system_ca
+              end).
+
 Definition backend_valid (cs : cluster) (r : route) (b : backend) : bool :=
   let ns := match b_ns b with Some n => n | None => rt_ns r end in
   (seqb ns (rt_ns r) ||
    ref_permitted cs ns "Service" (b_name b) (match rt_kind r with KHTTP => "HTTPRoute" | KGRPC => "GRPCRoute" end) (rt_ns r)) &&
   (0 <=? b_weight b)%Z && (b_weight b <=? 1000000)%Z &&
-  existsb (fun s => seqb (s_ns s) ns && seqb (s_name s) (b_name b) && existsb (Z.eqb (b_port b)) (s_ports s)) (c_services cs).
+  existsb (fun s => seqb (s_ns s) ns && seqb (s_name s) (b_name b) && existsb (Z.eqb (b_port b)) (s_ports s)) (c_services cs) &&
+  match btp_for cs ns (b_name b) with Some p => btp_valid cs p | None => true end.
+
+Definition backend_tls (cs : cluster) (r : route) (b : backend) : option (string * string) :=
+  let ns := match b_ns b with Some n => n | None => rt_ns r end in
+  if backend_valid cs r b then
+    match btp_for cs ns (b_name b) with
+    | Some p => Some (btp_verify p)
+    | None => None
+    end
+  else None.   (* a backend that is not in effect has no TLS settings to agree on *)
+
+Definition opt_pair_eqb (a b : option (string * string)) : bool :=
+  match a, b with
+  | None, None => true
+  | Some (x1, y1), Some (x2, y2) => seqb x1 x2 && seqb y1 y2
+  | _, _ => false
+  end.
+
+(* all backends of a rule must agree on TLS verification, else none of them is served *)
+Definition rule_tls_consistent (cs : cluster) (r : route) (bs : list backend) : bool :=
+  match bs with
+  | [] => true
+  | b0 :: _ => forallb (fun b => opt_pair_eqb (backend_tls cs r b) (backend_tls cs r b0)) bs
+  end.
 
 Definition upstream_name (r : route) (b : backend) : string :=
   let ns := match b_ns b with Some n => n | None => rt_ns r end in
@@ -304,7 +361,8 @@ Definition eff_weight (b : backend) : Z :=
 Definition expected_backends (cs : cluster) (r : route) (bs : list backend) : list (string * Z) :=
   let total := fold_left (fun acc b => (acc + eff_weight b)%Z) bs 0%Z in
   if (total =? 0)%Z then [(invalid_backend, 10000%Z)]
-  else map (fun b => (if backend_valid cs r b then upstream_name r b else invalid_backend,
+  else map (fun b => (if backend_valid cs r b && (Nat.leb (List.length bs) 1 || rule_tls_consistent cs r bs)
+                      then upstream_name r b else invalid_backend,
                       (eff_weight b * 10000 / total)%Z)) bs.
 
 Definition is_redirect (f : rfilter) := match f with FRedirect _ _ _ _ _ => true | _ => false end.
@@ -318,6 +376,12 @@ Definition rule_outcome (cs : cluster) (r : route) (ru : rule) : outcome :=
        | _ => OProxy (match rt_kind r with KGRPC => true | KHTTP => false end)
                      (expected_backends cs r (r_backends ru))
                      (filter (fun f => negb (is_redirect f)) (r_filters ru))
+                     (if Nat.leb (List.length (r_backends ru)) 1 || rule_tls_consistent cs r (r_backends ru)
+                      then match filter (fun b => match backend_tls cs r b with Some _ => true | None => false end) (r_backends ru) with
+                           | b :: _ => backend_tls cs r b
+                           | [] => None
+                           end
+                      else None)
        end.
 
 (* ------------------------------------------------------------------ the routing decision *)
@@ -458,4 +522,47 @@ Definition has_mixed_group (cs : cluster) : bool :=
                                            (route_cands (snd b2))) (route_cands (snd b1))
             | _, _ => false
             end) binds) binds) (g_listeners g)
+  end.
+
+(* ------------------------------------------------------------------ which certificate a TLS client must see (C16) *)
+
+(* listener hostname specificity as used to pick the owner of a served name *)
+Definition lh_more_specific (a b : listener) : bool := seqb (more_specific (lhost a) (lhost b)) (lhost a).
+
+Fixpoint most_specific_listener (best : listener) (l : list listener) : listener :=
+  match l with
+  | [] => best
+  | x :: l' => if lh_more_specific x best && negb (seqb (lhost x) (lhost best)) then most_specific_listener x l'
+               else most_specific_listener best l'
+  end.
+
+(* the Secret (namespace, name) whose certificate must be presented for this request, if the handshake
+   is to succeed at all; the boolean tells whether the owner is ambiguous (two servers for one name:
+   class of finding D25) *)
+Definition expected_secret (cs : cluster) (q : request) : option (string * string * bool) :=
+  match winning_gateway cs, q_sni q with
+  | Some g, Some sni =>
+      let binds := port_bindings cs g (q_port q) in
+      let names := List.app (map (fun b => fst (fst b)) binds) (https_listener_names cs g (q_port q)) in
+      match best_name None names sni with
+      | None => None
+      | Some x =>
+          let via_routes := map (fun b => snd (fst b)) (filter (fun b => seqb (fst (fst b)) x) binds) in
+          let own := filter (fun l => match l_proto l with PHTTPS => true | _ => false end &&
+                                      mem_str x (https_listener_names cs g (q_port q)) &&
+                                      seqb (if seqb (lhost l) "" then catch_all else lhost l) x)
+                            (valid_listeners_on cs g (q_port q)) in
+          let cands := match via_routes with [] => own | _ => via_routes end in
+          match cands with
+          | [] => None
+          | l0 :: ls =>
+              let l := most_specific_listener l0 ls in
+              match l_cert l with
+              | Some cr => Some (match cr_ns cr with Some n => n | None => g_ns g end, cr_name cr,
+                                 match via_routes, own with _ :: _, _ :: _ => true | _, _ => false end)
+              | None => None
+              end
+          end
+      end
+  | _, _ => None
   end.
